@@ -1338,8 +1338,18 @@ func runSequence(b *harness.B, r *rand.Rand, base *chain, id int) {
 	steps := 3 + r.IntN(10)
 	for i := 0; i < steps && !s.dead; i++ {
 		if s.c.childHeight() > s.fc.ProofHeight {
-			// the confirmed contract is past its revisable window: only a renewal is admissible
+			// the confirmed contract is past its revisable window: only a renewal is admissible. A refresh keeps the
+			// proof height: it is asked for all the same every third time - Validate has to refuse it (what it admits
+			// goes to consensus like any other result)
 			s.plan = nil
+			if r.IntN(3) == 0 {
+				b.Count("refreshes_requested_past_the_proof_height", 1)
+				s.opRefresh(r.IntN(2) == 0)
+				if s.dead {
+					break
+				}
+				s.plan = nil
+			}
 			s.opRenew()
 			continue
 		}
